@@ -273,7 +273,33 @@ def detector_spec(det, params):
 
 # ------------------------------------------------------------------ objects with a past (C02, C03, C07-C09)
 
-HISTORIES = [None, "used_buffer_array", "used_buffer_frame", "scorer_prefit_wide", None]
+HISTORIES = [None, "used_buffer_array", "used_buffer_frame", "scorer_prefit_wide", None,
+             # the same fitted detector has just predicted on *other objects* holding closely related data: the rows in another
+             # order (reversed, rotated), or the same series with a block of interior rows revised (recalibration, imputed gap)
+             "predicted_on_reversed", "predicted_on_rotated", "predicted_on_revised"]
+
+
+def related_predict(det, X, history):
+    """Lets the fitted `det` predict on a new object with data related to X (see HISTORIES); failures of that earlier
+    call with the documented not-positive-definite error are part of life."""
+    import numpy as np
+
+    Xr = np.asarray(X)
+    if history == "predicted_on_reversed":
+        other = Xr[::-1].copy()
+    elif history == "predicted_on_rotated":
+        other = np.roll(Xr, max(1, len(Xr) // 3), axis=0)
+    else:
+        other = Xr.copy()
+        a = max(1, len(Xr) // 2 - 1)
+        other[a:a + max(1, len(Xr) // 8)] = other[a:a + max(1, len(Xr) // 8)] * -0.5 + (3 if Xr.dtype.kind in "iu" else 3.25)
+    try:
+        det.predict(other)
+        if hasattr(det, "transform_scores") and type(det).__name__ in ("PELT", "MovingWindow", "CAPA", "MVCAPA"):
+            det.transform_scores(other)
+    except RuntimeError as e:
+        if "positive definite" not in str(e):
+            raise
 
 
 def other_contents(X):
